@@ -168,4 +168,15 @@ def demoSchema : Schema := { B := 16, fields := [⟨false, 0, false⟩, ⟨false
 example : deserialize demoSchema ([7, 7, 7] ++ [1, 2] ++ [2,0,0,0,0,0,0,0, 3,0,0,0,0,0,0,0]) = some ([[1, 2], [7, 7, 7]], []) := by decide
 example : deserialize demoSchema ([7, 7, 7] ++ [1, 2] ++ [9,0,0,0,0,0,0,0, 3,0,0,0,0,0,0,0]) = none := by decide
 
+/-! ### finding F17: the checksum of a `CheckedMessage` does not cover the variable-length fields
+
+`validate_checksum` accumulates the hash in the `m_checksum` member itself, which is the first bytes of the body. When
+the body is hashed, that member holds the hash of the fields, and a CRC seeded with `h` over data that begins with the
+bytes of `h` is the CRC of zero bytes seeded with 0: the fields' contribution cancels. Witness: a checked message whose
+body is just the checksum field accepts *any* field bytes with a stored checksum of 0. -/
+def checkedSchema : Schema := { B := 4, fields := [], scalars := [], crc := some 0 }
+theorem C12_checksum_blind_witness :
+    checksumOk checkedSchema [1, 2, 3] [0, 0, 0, 0] = true ∧ checksumOk checkedSchema [9, 9, 9, 7] [0, 0, 0, 0] = true ∧
+    checksumOk checkedSchema [] [0, 0, 0, 0] = true := by decide +kernel
+
 end Photon.Ser
